@@ -38,6 +38,18 @@ function e.tbl(f) return {} end
 function e.spin(f) local i=0 while true do i=i+1 end end
 function e.prespin(f) return f:preprocess("{{#invoke:m|spin}}") end
 function e.par(f) local p=f:getParent(); return p and p:getTitle() or "nil" end
+-- frame callbacks that fail on the PYTHON side after the expansion path has grown (caught or not by the module)
+function e.etbad(f) return f:expandTemplate{title=5} end
+function e.etbad2(f) local ok = pcall(f.expandTemplate, f, {title=5}) return "c" .. tostring(ok) end
+function e.etbad3(f) local ok = pcall(f.expandTemplate, f, {title="ta", args=7}) return "c" .. tostring(ok) end
+function e.prebad(f) local ok = pcall(f.preprocess, f, {text={}}) return "c" .. tostring(ok) end
+function e.prebad2(f) return f:preprocess(setmetatable({}, {__index=function() error("idx") end})) end
+function e.cpfbad(f) local ok = pcall(f.callParserFunction, f, {name="#if", args=5}) return "c" .. tostring(ok) end
+function e.cpfbad2(f) return f:callParserFunction({}) end
+function e.extbad(f) local ok = pcall(f.extensionTag, f, {name="ref", content="x", args=5}) return "c" .. tostring(ok) end
+function e.extbad2(f) return f:extensionTag({name={}, content={}}) end
+function e.argbad(f) return f.args[{}] end
+function e.nestbad(f) return f:preprocess("{{#invoke:m|etbad}}{{#invoke:m|ok}}") end
 return e'''
 SPECIAL = [
     "{{#invoke:m|ok}}", "{{#invoke:m|ok|{{ta|q}}}}", "{{#invoke:m|err}}", "{{#invoke:m|nofunc}}", "{{#invoke:nomod|f}}",
@@ -47,6 +59,9 @@ SPECIAL = [
     "{{#switch:a|a={{#invoke:m|err}}}}", "{{PAGENAME}}", "{{#tag:ref|x}}", "{{#unknownpf:x}}", "{{subst:ta|x}}",
     "{{ta|<nowiki>{{ta}}</nowiki>}}", "{{#time:Y|garbage}}", "{{#titleparts:}}", "{{padleft:}}", "{{#invoke:m|spin}}",
     "{{#invoke:m|prespin}}", "{{#ifexpr:1/0|a|b}}", "{{#len:{{loop}}}}", "{{lc:{{#invoke:m|err}}}}",
+    "{{#invoke:m|etbad}}", "{{#invoke:m|etbad2}}", "{{#invoke:m|etbad3}}", "{{#invoke:m|prebad}}", "{{#invoke:m|prebad2}}",
+    "{{#invoke:m|cpfbad}}", "{{#invoke:m|cpfbad2}}", "{{#invoke:m|extbad}}", "{{#invoke:m|extbad2}}", "{{#invoke:m|argbad}}",
+    "{{#invoke:m|nestbad}}", "{{#invoque:m|ok}}", "{{#invoque:m|err}}", "{{winv}}{{#invoque:m|etbad}}",
 ]
 TIMEOUT_PAGES = {"{{#invoke:m|spin}}", "{{#invoke:m|prespin}}"}
 
@@ -65,12 +80,13 @@ def shards(tier, seed):
 
 
 class Mon:
-    def __init__(self, obs):
+    def __init__(self, obs, aliases=False):
         from vf.core.wtp import fresh
         from vf.lua.vclock import VClock
         contracts.install_stack_contracts()
         self.obs = obs
-        self.cm = fresh(lua=True, pages=[
+        kw = {"parser_function_aliases": {"#invoque": "#invoke"}} if aliases else {}
+        self.cm = fresh(lua=True, **kw, pages=[
             ("Template:ta", 10, "[{{{1|}}}]"), ("Template:tb", 10, "{{ta|{{{1|b}}}}}{{{n|}}}"),
             ("Template:tc", 10, "* {{{1}}}"), ("Template:td", 10, "{{#if:{{{1|}}}|{{tb|{{{1}}}}}|none}}"),
             ("Template:te", 10, ""), ("Template:loop", 10, "{{loop}}"), ("Template:l2", 10, "{{l3}}"),
@@ -192,12 +208,16 @@ def run_shard(spec):
     import wikitextprocessor.core as core
     obs = Obs()
     rng = random.Random(spec["seed"])
-    mon = Mon(obs)
+    mon_plain = Mon(obs)
+    mon_alias = Mon(obs, aliases=True)
+    mon = mon_plain
     anchors.watch({"core.expand_parserfn": (core.Wtp.expand.__wrapped__ if hasattr(core.Wtp.expand, "__wrapped__") else core.Wtp.expand, "expand_parserfn"),
                    "core.Wtp.start_page": core.Wtp.start_page, "core.Wtp.error": core.Wtp.error,
                    "core.Wtp.warning": core.Wtp.warning, "core.detect_expand_template_loop": core.detect_expand_template_loop})
     opts = option_list()
     for i in range(spec["n"]):
+        mon = mon_alias if i % 3 == 2 else mon_plain
+        obs.count("context.alias" if mon is mon_alias else "context.plain")
         page = gen_page(rng)
         opt = opts[i % len(opts)] if i < 3 * len(opts) else rng.choice(opts)
         title = rng.choice(["Pg", "Talk:Zz", "Template:Q r"])
@@ -224,15 +244,16 @@ def run_shard(spec):
         pushed = len(ctx.errors) + len(ctx.warnings) + len(ctx.debugs) > 0 or "{{" in page
         obs.case([page, key], nontrivial=pushed, sample={"page": page[:200], "options": opt})
         for p in probs:
-            obs.violation(p[0], "%s page=%r opt=%r" % (p[1], page[:300], opt), {"page": page, "opt": opt, "title": title, "section": section})
+            obs.violation(p[0], "%s page=%r opt=%r" % (p[1], page[:300], opt), {"page": page, "opt": opt, "title": title, "section": section, "aliases": mon is mon_alias})
         # a second call on the same page without start_page: messages accumulate but stay well-formed
         if i % 7 == 0:
             p3, _ = mon.call(page, opt)
             for p in p3:
                 obs.violation(p[0] + "/second-call", "%s page=%r opt=%r" % (p[1], page[:300], opt),
-                              {"page": page, "opt": opt, "title": title, "section": section, "twice": True})
+                              {"page": page, "opt": opt, "title": title, "section": section, "twice": True, "aliases": mon is mon_alias})
     # repetition: N flat calls must never look deeply nested
     for j in range(spec["repeat_pages"]):
+        mon = mon_alias if j % 2 else mon_plain
         page = gen_page(rng)
         opt = rng.choice([o for o in opts if o["api"] == "expand"])
         if any(t in page for t in TIMEOUT_PAGES):
@@ -258,8 +279,9 @@ def run_shard(spec):
         obs.maxi("max_repeat", k + 1)
         if bad is not None:
             obs.violation("depth-error-after-N-flat-calls", "after %d repeats page=%r opt=%r" % (bad, page[:300], opt),
-                          {"page": page, "opt": opt, "repeat": bad + 2})
-    mon.close()
+                          {"page": page, "opt": opt, "repeat": bad + 2, "aliases": mon is mon_alias})
+    mon_plain.close()
+    mon_alias.close()
     obs.anchors.update(anchors.snapshot())
     for k, v in contracts.EVALS.items():
         obs.check(k, v)
@@ -268,7 +290,7 @@ def run_shard(spec):
 
 def replay(case):
     obs = Obs()
-    mon = Mon(obs)
+    mon = Mon(obs, aliases=bool(case.get("aliases")))
     probs = mon.start(case.get("title", "Pg"), case.get("section"))
     out = []
     n = case.get("repeat", 2 if case.get("twice") else 1)
